@@ -124,12 +124,13 @@ def fault_matrix(q):
         inst("flatset", "TR", "coarse", "smallvector2", alloc="ledgerstd", opts=fb),
         inst("smallset", "NTR", "less", back="stdset", N=2, alloc="ledgerstd", opts=fb),
         inst("smallset", "TR", "less", back="flatset", N=2, alloc="ledgerstd", opts=fb),
+        inst("flatset", "TC4", "less", "stdvector", alloc="ledgerstd", opts=fb),
     ]
     if not q:
         m += [
             inst("flatset", "NTR", "stateful", "amcvector", alloc="ledgerstd", keys=5, opts=fb),
             inst("flatset", "TR", "greater", "fixed8", keys=4, opts=fb),
-            inst("flatset", "TC4", "less", "stdvector", alloc="ledgerstd", opts=fb),
+            inst("flatset", "TC4", "greater", "stdvector", alloc="ledgerstd", keys=5, opts=fb),
             inst("smallset", "NTR", "coarse", back="stdset", N=3, alloc="ledgerstd", keys=5, opts=fb),
             inst("smallset", "TR", "stateful", back="flatset", N=3, alloc="ledgerstd", keys=5, opts=fb),
             inst("smallset", "NTR", "less", back="stdset", N=1, alloc="ledgerstd", opts=fb),
